@@ -7,13 +7,17 @@ import BaoModel.Ops2
 namespace Bao.Ops
 open Bao.Proto
 
-/-- extended corruption: also the root (`r<pos>^x`) and zeroed regions (`Zd<a>:<len>`, `Zo<a>:<len>`) -/
+/-- extended corruption: also the root (`r<pos>^x`), zeroed regions (`Zd<a>:<len>`, `Zo<a>:<len>`)
+and a data file that ends early (`Td<len>`) -/
 def applyCorruptionExt (spec : String) (d ob root : List UInt8) :
     Option (List UInt8 × List UInt8 × List UInt8) :=
   if spec == "-" then some (d, ob, root) else
   (spec.splitOn ",").foldlM (fun (acc : List UInt8 × List UInt8 × List UInt8) c =>
     let (d, ob, root) := acc
-    if c.startsWith "Z" then
+    if c.startsWith "Td" then
+      -- partially filled store: the data file ends early
+      (c.drop 2).toString.toNat?.map fun len => (d.take len, ob, root)
+    else if c.startsWith "Z" then
       let which := (c.drop 1).take 1 |>.toString
       match ((c.drop 2).toString.splitOn ":").mapM (·.toNat?) with
       | some [a, len] =>
@@ -90,12 +94,33 @@ def opValid (args : List String) (impl : String) : Verdict :=
           if touched && verifiableBlock kind size bs d' ob' withData i (Spec.log2ceil 64 blocks) 0 root' true
           then some (a, e) else none
         let wantS := if want.isEmpty then "-" else ",".intercalate (want.map pair)
+        -- a data file that ends early (`Td`): groups the query touches whose bytes are not all there
+        let touchedOf (i : Nat) : Bool :=
+          let a := i * g
+          let e := min ((i + 1) * g) n
+          blocks == 1 || (List.range (max 1 (e - a))).any fun c => Spec.selected size ranges (a + c)
+        let shortGroups : List Nat := if !withData then [] else
+          (List.range blocks).filter fun i => touchedOf i && min ((i + 1) * g * 1024) size > d'.length
         let sf : Option String :=
           match impl.splitOn " " with
           | [iy, ie] =>
-            if ie != "ok" then some s!"validator error {ie}"
-            else if iy != wantS then some s!"reported {iy}, verifiable and touched {wantS}"
-            else none
+            if shortGroups.isEmpty then
+              if ie != "ok" then some s!"validator error {ie}"
+              else if iy != wantS then some s!"reported {iy}, verifiable and touched {wantS}"
+              else none
+            else
+              -- soundness always: every reported group is verifiable (so its bytes are stored);
+              -- completeness up to the first group whose bytes are missing; an io error is allowed
+              let rep := if iy == "-" then [] else iy.splitOn ","
+              let wantL := want.map pair
+              let firstShort := shortGroups.head!
+              let before := (want.filter fun (a, _) => a < firstShort * g).map pair
+              if !(rep.all fun x => wantL.contains x) then
+                some s!"reported {iy} with the data file cut at {d'.length}, verifiable and touched {wantS}"
+              else if !(before.all fun x => rep.contains x) then
+                some s!"reported {iy}, missing a verifiable group before the first short one; verifiable {wantS}"
+              else if ie != "ok" && !(ie.startsWith "Io(UnexpectedEof") then some s!"validator error {ie} on a short data file"
+              else none
           | _ => some "malformed"
         { model := m, specFail := sf, nontrivial := blocks > 1 }
     | _, _, _, _, _ => bad "valid"
